@@ -44,6 +44,13 @@ class Plugin(HistPlugin):
                     f = {k: gen.same_instant(rng, v)}
                     if rng.random() < 0.3:
                         f = {k: {'$in': [gen.same_instant(rng, v), 5]}}
+                # sometimes: an _id list that names a document more than once (1 and 1.0 are one key)
+                if docs and rng.random() < 0.15:
+                    ks = [rng.randrange(len(docs) + 1) for _ in range(rng.choice([1, 2, 3]))]
+                    lst = [rng.choice([k, float(k), k]) for k in ks for _ in range(rng.choice([1, 2]))]
+                    f = {'_id': {'$in': lst}}
+                    if rng.random() < 0.3:
+                        f = dict(gen.filter_(rng, base, depth=1), **f)
             finally:
                 gen.DATE_MODE[0] = 'plain'
 
@@ -64,6 +71,7 @@ class Plugin(HistPlugin):
                 'find_sort_kw': lambda: len(list(fresh().find(copy.deepcopy(f), sort=[('_id', 1)]))),
                 'find_chained_sort': lambda: len(list(fresh().find(copy.deepcopy(f)).sort('_id', 1))),
                 'update_many': lambda: fresh().update_many(copy.deepcopy(f), {'$set': {'zz9': 1}}).matched_count,
+                'update_many_modified': lambda: fresh().update_many(copy.deepcopy(f), {'$set': {'zz9': 1}}).modified_count,
                 'delete_many': lambda: fresh().delete_many(copy.deepcopy(f)).deleted_count,
                 'aggregate_match': lambda: len(list(fresh().aggregate([{'$match': copy.deepcopy(f)}]))),
                 'distinct_id': lambda: len(fresh().distinct('_id', copy.deepcopy(f))),
